@@ -12,6 +12,7 @@ _fp = None
 _trace = []          # solver-invocation events of the current task
 _faults = {}         # invocation number (1-based) -> injected status
 _ninv = [0]
+_percount = {}
 
 
 def _install_tracer(fp):
@@ -23,25 +24,42 @@ def _install_tracer(fp):
     orig_opt = sw.optimize
     orig_status = sw.get_model_status
 
+    def get_model_status(self, raw=False):
+        inj = getattr(self, "_verif_inj", None)
+        if inj and inj != "custom_timeout":
+            return inj
+        return orig_status(self, raw)
+
+    def _owner():
+        owner = "main"
+        f = sys._getframe(2)
+        while f is not None:
+            fn = f.f_code.co_filename
+            if fn.endswith("mingenset.py"):
+                owner = "mingenset"
+            if f.f_code.co_name == "_solve_with_given_weights":
+                owner = "given"
+            f = f.f_back
+        return owner
+
     def optimize(self):
         _ninv[0] += 1
+        owner = _owner()
+        _percount[owner] = _percount.get(owner, 0) + 1
         self._verif_inv = _ninv[0]
+        # a fault is addressed either by absolute invocation number or by "<owner>:<ordinal>"
+        inj = _faults.get(self._verif_inv) or _faults.get(f"{owner}:{_percount[owner]}")
+        self._verif_inj = inj
         r = orig_opt(self)
-        inj = _faults.get(self._verif_inv)
         if inj == "custom_timeout":
             self.did_timeout = True
         try:
             st = orig_status(self)
         except Exception as e:  # pragma: no cover
             st = "EXC_" + type(e).__name__
-        _trace.append([self._verif_inv, str(st), str(inj) if inj else "none"])
+        seen = get_model_status(self)
+        _trace.append([self._verif_inv, str(st), str(inj) if inj else "none", owner, str(seen)])
         return r
-
-    def get_model_status(self, raw=False):
-        inj = _faults.get(getattr(self, "_verif_inv", -1))
-        if inj and inj != "custom_timeout":
-            return inj
-        return orig_status(self, raw)
 
     sw.optimize = optimize
     sw.get_model_status = get_model_status
@@ -247,12 +265,36 @@ def run_instance(inst):
     _trace.clear()
     _faults.clear()
     _ninv[0] = 0
+    _percount.clear()
     for k, v in (inst.get("faults") or {}).items():
-        _faults[int(k)] = v
+        _faults[int(k) if str(k).isdigit() else k] = v
     out = dict(inst)
     t0 = time.time()
-    G = build_graph(inst)
-    kw = build_kwargs(inst, G)
+    if inst["cls"] == "MinGenSet":
+        G = None
+        kw = {"numbers": list(inst["numbers"]), "total": inst["total"],
+              "weight_type": {"int": int, "float": float}[inst.get("wt", "int")], "solver_options": {"threads": 1}}
+        for key in ("max_multiplicity", "lowerbound", "partition_constraints", "remove_complement_values", "remove_sums_of_two"):
+            if key in inst:
+                kw[key] = inst[key]
+    elif inst["cls"] == "MinSetCover":
+        G = None
+        kw = {"universe": list(inst["universe"]), "subsets": [list(x) for x in inst["subsets"]], "solver_options": {"threads": 1}}
+        if "subset_weights" in inst:
+            kw["subset_weights"] = list(inst["subset_weights"])
+    elif inst["cls"] == "NumPathsOptimization":
+        G = build_graph(inst)
+        inner = dict(inst)
+        inner["cls"] = inst["model_type"]
+        inner.pop("k", None)
+        kw = build_kwargs(inner, G)
+        kw["model_type"] = getattr(fp, inst["model_type"])
+        for key in ("stop_on_first_feasible", "stop_on_delta_abs", "min_num_paths", "max_num_paths"):
+            if key in inst:
+                kw[key] = inst[key]
+    else:
+        G = build_graph(inst)
+        kw = build_kwargs(inst, G)
     cls = getattr(fp, inst["cls"])
     model = None
     out.update({"ctor_exc": "none", "ctor_msg": "", "solve_ret": NONE, "solve_exc": "none", "solved": False,
@@ -305,7 +347,11 @@ def run_instance(inst):
             try:
                 sol = model.get_solution()
                 out["got_solution"] = sol is not None
-                observe_solution(sol, syn, out)
+                if isinstance(sol, list):       # MinGenSet / MinSetCover return plain lists
+                    out["sol_kind"] = "list"
+                    out["sol_list"], out["sol_list_types"] = numlist(sol) if all(not isinstance(x, (list, tuple)) for x in sol) else ([], [])
+                else:
+                    observe_solution(sol, syn, out)
             except SystemExit:
                 out["sol_exc"] = "SystemExit"
             except BaseException as e:
@@ -321,6 +367,8 @@ def run_instance(inst):
                 except BaseException as e:
                     out["sol2_exc"] = type(e).__name__
             try:
+                if not hasattr(model, "get_objective_value"):
+                    raise AttributeError("no objective")
                 ov = model.get_objective_value()
                 out["obj"] = fx(ov)
                 out["obj_type"] = tname(ov)
@@ -329,6 +377,8 @@ def run_instance(inst):
             except BaseException as e:
                 out["obj_exc"] = type(e).__name__
             try:
+                if not hasattr(model, "is_valid_solution"):
+                    raise AttributeError("no validity check")
                 v = model.is_valid_solution()
                 out["valid"] = 1 if v is True else (0 if v is False else NONE)
             except SystemExit:
